@@ -2228,6 +2228,27 @@ static void EnterLocSymbol(PSymbolEntry Neu) {
     if (!CaseSensitive) {
         NLS_UpString(Neu->Tree.Name);
     }
+
+    /* A label that is new in this macro/repetition body and hides a symbol of the
+       same name outside: references in the body in front of this definition were
+       bound to the outer symbol, one more pass binds them here (the same as for a
+       section-local symbol, see EnterSymbol()). */
+
+    if ((PassNo <= MaxSymPass)
+        && !SearchTree((PTree)FirstLocSymbol, Neu->Tree.Name, MomLocHandle)) {
+        PSaveSection RunSect;
+        Boolean      Hides = !!SearchTree((PTree)FirstSymbol, Neu->Tree.Name, -1)
+                        || !!SearchTree(
+                                (PTree)FirstSymbol, Neu->Tree.Name, MomSectionHandle);
+
+        for (RunSect = SectionStack; RunSect && !Hides; RunSect = RunSect->Next) {
+            Hides = !!SearchTree((PTree)FirstSymbol, Neu->Tree.Name, RunSect->Handle);
+        }
+        if (Hides) {
+            Repass = True;
+        }
+    }
+
     EnterStruct.MayChange = EnterStruct.DoCross = FALSE;
     TreeRoot                                    = &FirstLocSymbol->Tree;
     EnterTree(&TreeRoot, (&Neu->Tree), SymbolAdder, &EnterStruct);
